@@ -6,7 +6,7 @@
 //!   attoverif replay <ID> <file>
 //!   attoverif list
 
-#[cfg(any(feature = "native", feature = "rustls"))]
+#[cfg(any(feature = "native", feature = "rustls-any"))]
 mod bridge;
 mod client;
 mod driver;
@@ -17,7 +17,7 @@ mod props;
 mod refmodel;
 mod respgen;
 mod rng;
-#[cfg(any(feature = "native", feature = "rustls"))]
+#[cfg(any(feature = "native", feature = "rustls-any"))]
 mod tlsfix;
 mod transport;
 
